@@ -104,6 +104,10 @@ def render(form: dict) -> dict:
             row[h] = text
             if h not in s_cols:
                 s_cols.append(h)
+        if e.get("appearance"):
+            row["appearance"] = e["appearance"]
+            if "appearance" not in s_cols:
+                s_cols.append("appearance")
         survey.append(row)
     close()
     for h in form.get("extra_survey_cols", []):
@@ -308,26 +312,58 @@ def observe(xform: str, case: dict) -> dict:
                     if v is not None:
                         rid = _resolve(v)
                         put(key, kind, lang, via(rid, v, "long", lang))
-    # choices: through the secondary instance of the list
+    # choices: as shown through every select control that uses the list — an <itemset> pointing into the
+    # secondary instance (label ref `jr:itext(<child>)` or a child element), or in-line <item>s (search() selects)
     inst = {i.get("id"): i for i in model.findall("x:instance", NS) if i.get("id")}
-    for key, ln, idx in choices_layout(case):
-        ins = inst.get(ln)
-        if ins is None:
+    by_list = {}
+    for ckey, ln, idx in choices_layout(case):
+        by_list.setdefault(ln, []).append((ckey, idx))
+    for skey, path, etype, ln in survey_layout(case):
+        if etype != "sel":
             continue
-        items = ins.findall("x:root/x:item", NS)
-        if idx >= len(items):
+        ctl = controls.get(path)
+        if ctl is None:
             continue
-        it = items[idx]
-        iid = it.find("x:itextId", NS)
-        lab = it.find("x:label", NS)
-        for lang in view_langs:
-            if iid is not None:
-                rid = iid.text or ""
-                put(key, "label", lang, via(rid, None, "long", lang))
-                for m in MEDIA_KINDS:
-                    put(key, m, lang, via(rid, None, m, lang))
-            elif lab is not None:
-                put(key, "label", lang, lab.text or "")
+        itemset = ctl.find("x:itemset", NS)
+        inline_items = ctl.findall("x:item", NS)
+        for ckey, idx in by_list.get(ln, []):
+            key = f"{ckey}@{skey}"
+            rid, inline, have = None, None, False
+            if itemset is not None:
+                ns_ = itemset.get("nodeset") or ""
+                m_ = ns_.find("instance('")
+                iname = ns_[m_ + 10: ns_.find("')", m_)] if m_ >= 0 else None
+                ins = inst.get(iname)
+                items = ins.findall("x:root/x:item", NS) if ins is not None else []
+                lref = (itemset.find("x:label", NS).get("ref") if itemset.find("x:label", NS) is not None else "") or ""
+                if idx < len(items):
+                    have = True
+                    it = items[idx]
+                    if lref.startswith("jr:itext(") and lref.endswith(")"):
+                        ch = it.find("x:" + lref[len("jr:itext("):-1], NS)
+                        rid = (ch.text or "") if ch is not None else "<no-%s-child>" % lref
+                    else:
+                        ch = it.find("x:" + lref, NS) if lref and "/" not in lref and "(" not in lref else None
+                        inline = (ch.text or "") if ch is not None else None
+            elif inline_items:
+                if idx < len(inline_items):
+                    have = True
+                    lab = inline_items[idx].find("x:label", NS)
+                    if lab is not None and lab.get("ref"):
+                        rid = _resolve(lab.get("ref"))
+                        if rid is None:
+                            inline = "<odd-ref:%s>" % lab.get("ref")
+                    elif lab is not None:
+                        inline = "".join(lab.itertext()) or None
+            if not have:
+                continue
+            for lang in view_langs:
+                if rid is not None:
+                    put(key, "label", lang, via(rid, None, "long", lang))
+                    for m in MEDIA_KINDS:
+                        put(key, m, lang, via(rid, None, m, lang))
+                elif inline is not None:
+                    put(key, "label", lang, inline)
     return {"langs": langs, "dup_langs": dup, "default": dflt, "text": text}
 
 
@@ -438,6 +474,18 @@ def py_spec(case: dict, strict_langs: bool = True) -> dict:
     langs_content = sorted(used)
     langs = sorted(used | named) if strict_langs else langs_content
     return {"langs": langs, "langs_content": langs_content, "plan": plan, "dl": dl}
+
+
+def expand_choice_keys(case: dict, text: dict) -> dict:
+    """a choice's texts are demanded through every select that uses its list: c<i> -> c<i>@s<j>"""
+    out = {k: v for k, v in text.items() if not k.startswith("c")}
+    sels = [(skey, ln) for skey, _, et, ln in survey_layout(case) if et == "sel"]
+    for ckey, ln, _ in choices_layout(case):
+        if ckey in text:
+            for skey, l2 in sels:
+                if l2 == ln:
+                    out[f"{ckey}@{skey}"] = text[ckey]
+    return out
 
 
 def spec_text(spec: dict, view_langs) -> dict:
@@ -557,12 +605,21 @@ def random_form(rng, big=False) -> dict:
                 e["list"] = f"l{len(lists)}"
                 lists.append(e["list"])
             e["seltype"] = rng.choice(["select_one", "select_multiple"])
+            e["_want_search"] = rng.random() < 0.3
         else:
             e["qtype"] = rng.choice(["text", "integer", "note", "text"])
         elems.append(e)
     if elems[-1]["etype"] == "g":
         elems.append({"etype": "q", "name": "inner", "parent": elems[-1]["name"], "qtype": "text",
                       "cells": {("label", None): marker("S", 9, "label", None)}})
+    # search() selects: in-line items instead of an itemset; a list must not be shared with an ordinary select
+    # (rejected) — mostly keep lists consistent, sometimes not
+    for ln in lists:
+        users = [e for e in elems if e.get("list") == ln]
+        if users and users[0]["_want_search"]:
+            for e in users:
+                if e is users[0] or rng.random() < 0.9:
+                    e["appearance"] = rng.choice(["search('crops')", "minimal search('c', 'matches', 'k', 'v')", "search('a')"])
     ci = 0
     cdens = rng.choice([0.2, 0.5, 0.8])
     for ln in lists:
@@ -673,3 +730,33 @@ def directed_cases():
     # rows mixing translated and untranslated kinds
     yield case(["type", "name", "label", "label::fr", "hint"],
                [{**q, "label": "Q", "hint": "H"}, {"type": "text", "name": "r", "label::fr": "Rfr"}])
+
+
+def search_family():
+    """Directed family around in-line items of search() selects: one or two search selects on a list of 3 choices in
+    which each choice independently has {only unsuffixed label, only fr label, both, unsuffixed + fr image}; the
+    question with / without its own label; default language unset or fr.  (27 x 2 x 2 x 2 abstract forms; sampled.)"""
+    shapes = {
+        "u": lambda i: {("label", None): marker("C", i, "label", None)},
+        "f": lambda i: {("label", "fr"): marker("C", i, "label", "fr")},
+        "uf": lambda i: {("label", None): marker("C", i, "label", None), ("label", "fr"): marker("C", i, "label", "fr")},
+        "um": lambda i: {("label", None): marker("C", i, "label", None), ("image", "fr"): marker("C", i, "image", "fr")},
+    }
+    names = list(shapes)
+    for a in names:
+        for b in names:
+            for c in ("u", "um", "uf"):
+                for two in (False, True):
+                    for qlab in (True, False):
+                        for dl in (None, "fr"):
+                            cells = {("label", None): "QL0"} if qlab else {("hint", None): "QH0"}
+                            elems = [{"etype": "sel", "name": "q0", "parent": None, "list": "l0", "seltype": "select_one",
+                                      "appearance": "search('crops')", "cells": dict(cells)}]
+                            if two:
+                                elems.append({"etype": "sel", "name": "q1", "parent": None, "list": "l0", "seltype": "select_multiple",
+                                              "appearance": "minimal search('crops')", "cells": {("label", "fr"): "QL1"}})
+                            choices = [{"list": "l0", "name": f"o{i}", "cells": shapes[sh](i)} for i, sh in enumerate((a, b, c))]
+                            form = {"style": "::", "elems": elems, "choices": choices}
+                            if dl:
+                                form["dl_setting"] = dl
+                            yield form
